@@ -316,7 +316,7 @@ func (g *DialerGroup) SelectWithExclusionResult(networkType *dialer.NetworkType,
 		// Fallback to another ipversion. Use local copy to avoid modifying the original networkType if it's passed by reference.
 		nt := *networkType
 		nt.IpVersion = (consts.IpVersion_X - networkType.IpVersion.ToIpVersionType()).ToIpVersionStr()
-		return g._select(&nt, state, policy, excluded)
+		d, latency, selectedNetworkType, err = g._select(&nt, state, policy, excluded)
 	}
 	if err == nil {
 		return d, latency, selectedNetworkType, nil
